@@ -74,6 +74,14 @@ def run_case(case):
     # agent 2: a grid state from the middle; agent 3: the last grid state
     pick = [0, (n_grid if n_all > n_grid else 1) % n_all, n_grid // 2, n_grid - 1]
     base = {s: v[pick] for s, v in init_all.items()}
+    # agent 3 is replaced by an agent WITHOUT any feasible choice where the model allows one (continuous
+    # wealth on a linear grid far below the smallest consumption level): its reported row is arbitrary, but it
+    # must still depend on its own state only (and the other agents must not depend on it)
+    fv = b.fv
+    infeasible_agent = fv["cc"] != "none" and fv["wgrid"] in ("lin", "extrap") and fv["cons"] in ("c", "disc", "param", "aux", "tight") and "w" in base
+    if infeasible_agent:
+        base["w"] = base["w"].copy()
+        base["w"][3] = 0.1
     stochastic = bool(r.stochastic)
     T = r.T
     cols_exact = [c for c in r.states + r.choices if r.kind[c] == "DiscreteGrid"]
@@ -105,7 +113,8 @@ def run_case(case):
             for j, a in enumerate(idx):
                 x, y = P[j, :periods], P0[a, :periods]
                 cnt += periods
-                ok = np.abs(x - y) <= 1e-12 * (1 + np.abs(y))
+                with np.errstate(invalid="ignore"):
+                    ok = np.abs(x - y) <= 1e-12 * (1 + np.abs(y))
                 ok[:, exact_idx] &= x[:, exact_idx] == y[:, exact_idx]
                 ok |= x == y
                 if not ok.all():
@@ -149,7 +158,7 @@ def run_case(case):
         traces=traces,
         digest=digest(P0) if P0 is not None else "exc",
         nontrivial=cnt > 0,
-        counters={"stochastic_models_period0_only": 1 if stochastic else 0},
+        counters={"stochastic_models_period0_only": 1 if stochastic else 0, "models_with_an_infeasible_agent": 1 if infeasible_agent else 0},
     )
 
 
